@@ -7,7 +7,8 @@
 EXTENDS Yoda
 
 CONSTANTS
-    NSet,       \* numbers of raw requests per request
+    NSet,       \* numbers of raw requests of the least request id
+    NSet2,      \* numbers of raw requests of the other requests
     WantSet,    \* subset of {"me", "other", "absent"}: request selects this validator / another / does not exist
     FReqSet, FHashSet, FDataSet,   \* failure budgets (0, 1..MaxTry-1, Always)
     LenSet, CachedSet,             \* executable lengths, initial cache content
@@ -15,7 +16,10 @@ CONSTANTS
     Modes,      \* subset of {"direct", "tx"}
     DeliverAnyTime  \* FALSE: reports are handed to the chain only when the daemon has finished (smaller state space)
 
-MaxN == CHOOSE n \in NSet : \A m \in NSet : m <= n
+NAll == NSet \cup NSet2
+MaxN == CHOOSE n \in NAll : \A m \in NAll : m <= n
+First == CHOOSE r \in Req : \A q \in Req : r <= q
+NSetOf(r) == IF r = First THEN NSet ELSE NSet2
 
 Outcome(kind, k) ==
     CASE kind = "ok"      -> [kind |-> "ok", code |-> 0, out |-> k]
@@ -24,15 +28,16 @@ Outcome(kind, k) ==
       [] kind = "error"   -> [kind |-> "error", code |-> 0, out |-> 0]
 
 Choices ==
-    [want : [Req -> WantSet], n : [Req -> NSet], dsOf : [Req -> [1..MaxN -> DS]], kind : [Req -> [1..MaxN -> KindSet]],
+    [want : [Req -> WantSet], n : [Req -> NAll], dsOf : [Req -> [1..MaxN -> DS]], kind : [Req -> [1..MaxN -> KindSet]],
      fReq : [Req -> FReqSet], fHash : [DS -> FHashSet], fData : [DS -> FDataSet],
      len : [DS -> LenSet], cached : [DS -> CachedSet]]
 
 \* choices that differ only in unused positions give the same scenario; canonical form: unused positions
 \* carry the least element
-MinN == CHOOSE n \in NSet : \A m \in NSet : n <= m
+MinN(r) == CHOOSE n \in NSetOf(r) : \A m \in NSetOf(r) : n <= m
 Canon(x) ==
-    /\ \A r \in Req : x.want[r] # "me" => x.n[r] = MinN      \* the raw requests of such a request are never looked at
+    /\ \A r \in Req : x.n[r] \in NSetOf(r)
+    /\ \A r \in Req : x.want[r] # "me" => x.n[r] = MinN(r)      \* the raw requests of such a request are never looked at
     /\ \A r \in Req : \A k \in 1..MaxN : (k > x.n[r] \/ x.want[r] # "me") =>
           /\ x.dsOf[r][k] = CHOOSE d \in DS : \A e \in DS : d <= e
           /\ x.kind[r][k] = CHOOSE q \in KindSet : TRUE
